@@ -251,7 +251,7 @@ class Replayer:
     def __init__(self, rec, world, mode, seed=0, default_paths=(1, 2)):
         self.rec = rec; self.W = world; self.mode = mode; self.seed = seed; self.default_paths = list(default_paths)
         self.bads = []; self.sigs = set(); self.reads = []; self.rec_on = True; self.nruns = 0
-        self.empty_api = False; self.src = {}; self.files = {}; self.eff_bad = False; self.stop = False; self.files_at_load = None; self.lazy_off = False
+        self.empty_api = False; self.src = {}; self.files = {}; self.eff_bad = False; self.stop = False; self.files_at_load = None; self.lazy_off = False; self.k = 0; self.last_run = -1; self.setstep = {}
 
     # -- reporting
     def bad(self, sig, what):
@@ -354,7 +354,7 @@ class Replayer:
         if a == "put_info": C.learning_info[arg["k"]] = arg["v"]; return None
         if a == "clear_info": C.learning_info.clear(); return None
         if a == "config":
-            for f, v in arg.items(): self.src[f] = "config" if v != "None" else "none"
+            for f, v in arg.items(): self.src[f] = "config" if v != "None" else "none"; self.setstep[f] = self.k
             self.E.config(processes=num(arg["processes"]), maxchunksperchild=num(arg["maxchunksperchild"]), maxtasksperchunk=num(arg["maxtasksperchunk"])); return None
         if a == "run":
             x = arg["a"]; self.made[:] = []
@@ -368,7 +368,7 @@ class Replayer:
 
     def step(self, k, st):
         a = st["a"]; where = "step %d (%s %s)" % (k, a, json.dumps(st["arg"])[:120])
-        self.reads = []
+        self.reads = []; self.k = k
         pid0 = os.getpid()
         try:
             if a in ("run", "filter") and self.mode == "virtual" and st["ret"]["x"] == "ok" and st["ret"]["v"]["seen"]["multi"]:
@@ -527,7 +527,8 @@ class Replayer:
     def cls_eff(self, want, got, generic):
         names = ["processes", "maxchunksperchild", "maxtasksperchunk"]
         diff = [names[i] for i in range(3) if want[i] != got[i]]
-        if diff and all(self.src.get(f) in ("config", "run") for f in diff): return DISCARD_SIG    # only settings configured earlier (config() / an earlier run) are wrong
+        # only settings configured earlier (by config() / an earlier run) are wrong, and a LATER run() has been called since: that run wiped them
+        if diff and all(self.src.get(f) in ("config", "run") and self.last_run > self.setstep.get(f, 0) for f in diff): return DISCARD_SIG
         return generic
 
     def seen(self, st, v, snaps, where, pid0):
@@ -539,7 +540,8 @@ class Replayer:
             want = [int(v["eff"]["processes"]), int(v["eff"]["maxchunksperchild"]), int(v["eff"]["maxtasksperchunk"])]
             for f, val in st["arg"]["a"].items():
                 if self.src.get(f) == "run-now": self.src[f] = "run"  # given to an earlier run: it stays configured on the object
-                if val != "None": self.src[f] = "run-now"             # an explicit argument of this run
+                if val != "None": self.src[f] = "run-now"; self.setstep[f] = self.k             # an explicit argument of this run
+            self.last_run = self.k
             self.eff_bad = got != want
             if got != want:
                 self.bad(self.cls_eff(want, got or [None] * 3, "run:effective-settings"), "%s ran with (processes, maxchunksperchild, maxtasksperchunk) = %r, expected %r" % (where, got, want))
